@@ -25,6 +25,7 @@
 # only (fibex: Field Bus Exchange Format //
 # https://de.wikipedia.org/wiki/Field_Bus_Exchange_Format)
 
+import copy
 import os
 import typing
 from builtins import *
@@ -428,6 +429,8 @@ def dump(db, f, **options):
     #
 
     # make frame names unique by adding suffix, if needed
+    # (on a copy: renaming must not change the caller's matrix)
+    db = copy.deepcopy(db)
     frame_names = dict()
     for frame in db.frames:
         if frame.name in frame_names:
